@@ -69,6 +69,46 @@ prop('C12', harness='envsched', kind='test', modes=RACE_MODES, procs=PROCS, floo
 prop('C13', harness='envsched', kind='test', modes=RACE_MODES, procs=PROCS, floor=1000, batches={'quick': 8, 'thorough': 16}, assumptions=ENV_ASSUME)
 prop('C05', harness='envsched', kind='test', modes=RACE_MODES, procs=PROCS, floor=1000, batches={'quick': 8, 'thorough': 16}, assumptions=ENV_ASSUME)
 
+def prep_optgen(ctx, cfg, tier, seed):
+    """engine B: generate the Go program of this property for this seed/tier, next to a go.mod that points at the
+    working tree. The directory is stable (under .build/, content-addressed by seed/tier/repo) so that the Go build
+    cache is hit when nothing changed; it holds generated harness code only, never a copy of golem."""
+    import optgen
+    nshapes = 60 if tier == 'quick' else 240
+    tag = hashlib.md5(REPO.encode()).hexdigest()[:6]
+    gdir = os.path.join(BUILD, 'optgen-%s-%s-%s' % (seed, tier, tag))
+    marker = os.path.join(gdir, '.complete')
+    gen_src = open(os.path.join(ROOT, 'lib', 'optgen.py'), 'rb').read()
+    stamp = hashlib.md5(gen_src).hexdigest()
+    if not (os.path.exists(marker) and open(marker).read() == stamp):
+        srcs = optgen.generate(seed * 1000003 + (1 if tier == 'quick' else 2), nshapes, tier)
+        tmpd = tempfile.mkdtemp(prefix='optgen-', dir=BUILD if os.path.isdir(BUILD) else None)
+        for p, src in srcs.items():
+            os.makedirs(os.path.join(tmpd, p.lower()))
+            with open(os.path.join(tmpd, p.lower(), 'main.go'), 'w') as f:
+                f.write(src)
+        mod = open(ctx.modfile).read().replace('module verif/harness', 'module optgen', 1)
+        mod = mod.replace('require (', 'require (\n\tverif/harness v0.0.0', 1).replace('replace (', 'replace (\n\tverif/harness => %s/harness' % ROOT, 1)
+        # staged copies are per-invocation temp dirs: the generated program does not use them
+        mod = '\n'.join(l for l in mod.split('\n') if '/stage/' not in l and 'golem/maplike' not in l and 'golem/seq ' not in l and 'verif.stage' not in l)
+        with open(os.path.join(tmpd, 'go.mod'), 'w') as f:
+            f.write(mod)
+        with open(os.path.join(tmpd, '.complete'), 'w') as f:
+            f.write(stamp)
+        shutil.rmtree(gdir, ignore_errors=True)
+        try:
+            os.rename(tmpd, gdir)
+        except OSError:
+            shutil.rmtree(tmpd, ignore_errors=True)   # another invocation won the race with identical content
+    return {'pkgdir': os.path.join(gdir, cfg['subpkg'])}
+
+OPT_MODES = {'quick': ['checkptr'], 'thorough': ['checkptr', 'asan']}
+OPT_ASSUME = ['the Go compiler (through ordinary selectors, unsafe.Sizeof and address arithmetic on &s.path) is the layout oracle; the generator models only the flattened listing, first-match resolution and must-fail requests',
+              'struct shapes are those of the generator grammar in lib/optgen.py; func-typed fields and NaN values are not generated',
+              'checkptr (and ASan in the thorough tier) are secondary oracles; intra-object wrong offsets are caught by the byte-level neighbour monitor only']
+for _p in ('C01', 'C02', 'C03', 'C04'):
+    prop(_p, harness='optgen', subpkg=_p.lower(), modes=OPT_MODES, batches={'quick': 4, 'thorough': 8}, floor=100, prepare=prep_optgen, assumptions=OPT_ASSUME, wd={'quick': 900, 'thorough': 7200})
+
 # ---------------------------------------------------------------------------
 
 def log(*a):
@@ -146,8 +186,12 @@ def build(ctx, harness, kind, mode, pkgdir=None, tags=None):
     """build harness/<harness> against the working tree; returns path of the binary"""
     os.makedirs(BUILD, exist_ok=True)
     out = os.path.join(ctx.tmp, 'bin-%s-%s' % (harness.replace('/', '_'), mode))
-    pkg = pkgdir or ('./' + harness)
+    pkg = './' + harness
+    cwd = os.path.join(ROOT, 'harness')
     flags = list(MODEFLAGS[mode]) + ['-modfile=' + ctx.modfile]
+    if pkgdir:   # a generated program with its own go.mod
+        pkg, cwd = '.', pkgdir
+        flags = list(MODEFLAGS[mode])
     if tags:
         flags += ['-tags=' + tags]
     if kind == 'test':
@@ -155,7 +199,7 @@ def build(ctx, harness, kind, mode, pkgdir=None, tags=None):
     else:
         cmd = [GO, 'build'] + flags + ['-o', out, pkg]
     t0 = time.time()
-    p = subprocess.run(cmd, cwd=os.path.join(ROOT, 'harness'), env=goenv(), stdout=subprocess.PIPE, stderr=subprocess.STDOUT, text=True)
+    p = subprocess.run(cmd, cwd=cwd, env=goenv(), stdout=subprocess.PIPE, stderr=subprocess.STDOUT, text=True)
     if p.returncode != 0:
         raise BuildError('build failed (%s): %s\n%s' % (mode, ' '.join(cmd), p.stdout[-6000:]))
     log('[build] %s/%s in %.1fs' % (harness, mode, time.time() - t0))
